@@ -126,6 +126,14 @@ def check(report, tier, seed):
             lines_r.insert(rng.randint(0, len(lines_r)), extra)
         for rep_i in range(k):
             rej["j%d_%d" % (i, rep_i)] = {"hcl": "\n".join(lines_r) + "\n"}
+    # one statement driving wires of different widths: rejected whichever of them the checker visits first
+    for i in range(8 if tier == "quick" else 100):
+        g = gen.ProgGen(rng, n_wires=rng.randint(1, 5), depth=2, allow_div=False)
+        r = c09.inject(rng, g.build(), force_kind="chain_width_mismatch")
+        if r is None:
+            continue
+        for rep_i in range(k):
+            rej["cw%d_%d" % (i, rep_i)] = {"hcl": "\n".join(r[0]) + "\n"}
     # programs with combinational loops - random ones, and loops two of whose wires are fed by one upstream wire:
     # WHICH loop is shown may differ from run to run, that a loop is diagnosed (and nothing else) may not
     import props.c10 as c10
